@@ -644,6 +644,121 @@ func randomCfg(r *rng.R, valid bool, ill bool) map[string]interface{} {
 	return svc
 }
 
+func ifaces(xs []string) []interface{} {
+	l := make([]interface{}, len(xs))
+	for i, x := range xs {
+		l[i] = x
+	}
+	return l
+}
+
+func pathOf(prefix string, params []string) string {
+	p := prefix
+	for _, k := range params {
+		p += "/{" + k + "}"
+	}
+	return p
+}
+
+func many(eps ...map[string]interface{}) map[string]interface{} {
+	var l []interface{}
+	for _, e := range eps {
+		l = append(l, e)
+	}
+	return map[string]interface{}{"version": 3, "endpoints": l}
+}
+
+func epWith(path string, bs ...map[string]interface{}) map[string]interface{} {
+	var l []interface{}
+	for _, b := range bs {
+		l = append(l, b)
+	}
+	return map[string]interface{}{"endpoint": path, "backend": l}
+}
+
+func subsets(xs []string) [][]string {
+	res := [][]string{nil}
+	for _, x := range xs {
+		for _, s := range res[:len(res):len(res)] {
+			res = append(res, append(append([]string(nil), s...), x))
+		}
+	}
+	return res
+}
+
+// names shared by path params, allowed query strings, allowed headers and backend
+// placeholders, so that a placeholder can carry the name of something the endpoint lets in
+// without declaring it as a path param
+var paramNames = []string{"a", "b", "id", "Id", "page", "cat", "q", "X-a", "x-B-c", "Host", "resp0_x", "JWT.sub", "z", "c-d", "_"}
+
+// randomParamsCfg: 1..3 endpoints; each backend pattern draws its placeholders from the
+// endpoint's own path params, its input_query_strings, its input_headers, the params of the
+// OTHER endpoints, and fresh names
+func randomParamsCfg(r *rng.R) map[string]interface{} {
+	ne := 1 + r.Intn(3)
+	params := make([][]string, ne)
+	var all []string
+	for i := range params {
+		for k := r.Intn(3); k > 0; k-- {
+			params[i] = append(params[i], pick(r, paramNames[:7]))
+		}
+		all = append(all, params[i]...)
+	}
+	var eps []interface{}
+	for i := 0; i < ne; i++ {
+		var qs, hs []string
+		for k := r.Intn(3); k > 0; k-- {
+			qs = append(qs, pick(r, paramNames))
+		}
+		for k := r.Intn(3); k > 0; k-- {
+			hs = append(hs, pick(r, paramNames))
+		}
+		ep := map[string]interface{}{"endpoint": pathOf(fmt.Sprintf("/e%d", i), params[i])}
+		if len(qs) > 0 || r.Bool() {
+			ep["input_query_strings"] = ifaces(qs)
+		}
+		if len(hs) > 0 || r.Bool() {
+			ep["input_headers"] = ifaces(hs)
+		}
+		var bs []interface{}
+		for nb := 1 + r.Intn(2); nb > 0; nb-- {
+			var ph []string
+			for k := r.Intn(3); k > 0; k-- {
+				var src []string
+				switch r.Intn(6) {
+				case 0, 1:
+					src = params[i]
+				case 2:
+					src = qs
+				case 3:
+					src = hs
+				case 4:
+					src = all
+				}
+				if len(src) == 0 {
+					src = paramNames
+				}
+				ph = append(ph, pick(r, src))
+			}
+			b := be(pathOf("/b", ph), pick(r, okHosts))
+			if r.Chance(1, 3) {
+				b["input_query_strings"] = ifaces(qs)
+			}
+			if r.Chance(1, 3) {
+				b["input_headers"] = ifaces(hs)
+			}
+			bs = append(bs, b)
+		}
+		ep["backend"] = bs
+		eps = append(eps, ep)
+	}
+	svc := map[string]interface{}{"version": 3, "endpoints": eps}
+	if r.Chance(1, 4) {
+		svc["disable_rest"] = true
+	}
+	return svc
+}
+
 func one(ep map[string]interface{}, bs ...map[string]interface{}) map[string]interface{} {
 	var l []interface{}
 	for _, b := range bs {
@@ -722,6 +837,16 @@ func main() {
 		with(one(ep("/x/{.Foo}"), be("/a/{{.Foo}}", "http://ok")), "disable_rest", true),
 		with(one(ep("/{a.b}/{c:d}"), be("/{c:d}/{a.b}/{a.b}", "http://ok")), "disable_rest", true),
 		with(one(ep("/a"), be("/b", "http://ok")), "listen_ip", "999.1.1.1"),
+		// a backend placeholder named like an allowed query string / header is NOT declared:
+		// the routers only put path params into Request.Params
+		one(with(ep("/s/{cat}"), "input_query_strings", []interface{}{"page"}), be("/s/{cat}/{page}", "http://ok")),
+		one(with(ep("/s/{cat}"), "input_query_strings", []interface{}{"page", "cat"}), be("/s/{page}", "http://ok")),
+		one(with(ep("/s/{cat}"), "input_headers", []interface{}{"page"}), be("/s/{cat}/{page}", "http://ok")),
+		one(with(ep("/s"), "input_query_strings", []interface{}{"q"}, "input_headers", []interface{}{"q"}), with(be("/s/{q}", "http://ok"), "input_query_strings", []interface{}{"q"})),
+		// a param declared by ANOTHER endpoint only, in both orders
+		many(epWith("/a/{x}", be("/b/{y}", "http://ok")), epWith("/c/{y}", be("/d/{y}", "http://ok"))),
+		many(epWith("/c/{y}", be("/d/{y}", "http://ok")), epWith("/a/{x}", be("/b/{y}", "http://ok"))),
+		many(epWith("/a/{x}", be("/b/{x}", "http://ok")), epWith("/c/{y}", be("/d/{x}", "http://ok")), epWith("/e/{x}/{y}", be("/f/{y}/{x}", "http://ok"))),
 	}
 	for _, c := range corpus {
 		g.cfgCase(c, "corpus")
@@ -782,6 +907,43 @@ func main() {
 			}
 		}
 	}
+	// (g) where a backend placeholder's name comes from: path params x input_query_strings x
+	// input_headers x placeholders of the backend pattern (0..2 names out of a b q z)
+	phs := [][]string{nil}
+	for i, x := range []string{"a", "b", "q", "z"} {
+		phs = append(phs, []string{x})
+		for _, y := range []string{"a", "b", "q", "z"}[i+1:] {
+			phs = append(phs, []string{x, y})
+		}
+	}
+	hdrSets := [][]string{nil, {"q"}}
+	rests := []bool{false}
+	if thorough {
+		hdrSets = subsets([]string{"a", "q"})
+		rests = []bool{false, true}
+	}
+	for _, ps := range subsets([]string{"a", "b"}) {
+		for _, qs := range subsets([]string{"a", "b", "q"}) {
+			for _, hs := range hdrSets {
+				for _, ph := range phs {
+					for _, nrest := range rests {
+						e := with(ep(pathOf("/p", ps)), "input_query_strings", ifaces(qs), "input_headers", ifaces(hs))
+						g.cfgCase(with(one(e, be(pathOf("/b", ph), "http://ok")), "disable_rest", nrest), "exhaustive:param-sources")
+					}
+				}
+			}
+		}
+	}
+	// (h) two endpoints in every order: params {a} {b} {a b} x one backend placeholder a|b each
+	for _, p1 := range [][]string{{"a"}, {"b"}, {"a", "b"}} {
+		for _, p2 := range [][]string{{"a"}, {"b"}, {"a", "b"}} {
+			for _, o1 := range []string{"a", "b"} {
+				for _, o2 := range []string{"a", "b"} {
+					g.cfgCase(many(epWith(pathOf("/e1", p1), be("/x/{"+o1+"}", "http://ok")), epWith(pathOf("/e2", p2), be("/y/{"+o2+"}", "http://ok"))), "exhaustive:two-endpoints")
+				}
+			}
+		}
+	}
 	// (f) versions
 	for v := -1; v <= 5; v++ {
 		g.cfgCase(with(one(ep("/a"), be("/b", "http://ok")), "version", v), "exhaustive:versions")
@@ -819,8 +981,10 @@ func main() {
 	for i := 0; i < nr; i++ {
 		sub := r.Sub()
 		switch {
-		case i%10 < 6:
+		case i%10 < 4:
 			g.cfgCase(randomCfg(sub, true, false), "random:mostly-valid")
+		case i%10 < 6:
+			g.cfgCase(randomParamsCfg(sub), "random:param-sources")
 		case i%10 < 9:
 			g.cfgCase(randomCfg(sub, false, false), "random:any-strings")
 		default:
@@ -845,5 +1009,5 @@ func main() {
 	}
 
 	g.w.Meta["compared"] = "outcome class (ok / error / panic) of Parse; per endpoint: method, timeout, concurrent_calls, input_headers, outcome class of DefaultFactory.New; per backend: hosts and url keys (as multisets), method, url_pattern, decoder, timeout, concurrent_calls, input_headers"
-	g.w.Close("corpus of past failures; exhaustive small scope (GraphQL variable values over {,},a up to length 3 (thorough 4); endpoint path x backend pattern x disable_rest over the path pool (quick: a seed-dependent half); host pool x sanitiser switch x position; output encodings x 0..3 backends; durations x durations x counts; versions -1..5); scanners re-validated against the package's compiled regular expressions / textproto / x/text on the pools and on random strings; structured random configurations (60% from mostly-valid pools, 30% any strings, 10% with ill-typed extra_config values); malformed JSON. nontrivial = rejected, or has a placeholder, or has an extra_config section", true)
+	g.w.Close("corpus of past failures; exhaustive small scope (GraphQL variable values over {,},a up to length 3 (thorough 4); endpoint path x backend pattern x disable_rest over the path pool (quick: a seed-dependent half); host pool x sanitiser switch x position; output encodings x 0..3 backends; durations x durations x counts; versions -1..5); scanners re-validated against the package's compiled regular expressions / textproto / x/text on the pools and on random strings; path params x input_query_strings x input_headers x backend placeholders over a b q z; two endpoints in every order; structured random configurations (40% from mostly-valid pools, 20% with backend placeholders drawn from the endpoint's path params / query strings / headers / other endpoints' params / fresh names, 30% any strings, 10% with ill-typed extra_config values); malformed JSON. nontrivial = rejected, or has a placeholder, or has an extra_config section", true)
 }
